@@ -196,23 +196,48 @@ def clause_e(ctx, P):
     ta, ts = _selection_loop_table(P, a), _selection_loop_table(P, s)
     ctx.ob("C18e.selection-siblings-agree", "apply_intf_selections~selected_intfs", ta == ts and ta["matches"] == 1 and all(v for k, v in ta.items() if k != "matches"),
            a.loc(), "both functions start with all-true, walk if_selections front to back and overwrite the flag of every matching interface: %s / %s" % (ta, ts))
+    # every selection is appended (call order = list order = precedence), wherever the push lives: in the handler or in
+    # a helper it calls; the flag pushed for enable_interface is the constant true, for disable_interface false
+    from .f4 import _param_alternatives
+    pushes = [(f, b, t) for f in P.lib_fns() if not f.in_tests() for b, t in f.calls()
+              if cname(t) == "std::vec::Vec::push" and recv_mentions(P, f, b, t, "if_selections", "Zeroconf")]
+    ctx.floor("C18e.selection-appended", len(pushes), 1, "Vec::push on if_selections")
+    flags = []      # (function the flag value originates in, value)
+    for (f, b, t) in pushes:
+        e = tracer(P, f).operand(t["args"][1], endpos(f, b))
+        aggs = [x for x in strip(e) if x[0] == "agg" and (x[2] or "").endswith("IfSelection")]
+        if not aggs:
+            flags.append((f, None))
+            continue
+        fields = P.adt_fields("service_daemon::IfSelection")
+        si = fields.index("selected") if "selected" in fields else 1
+        for x in aggs:
+            for (f2, alt) in _param_alternatives(P, f, x[4][si]):
+                flags.append((f2, fold(alt)))
     for name, val in (("Zeroconf::enable_interface", True), ("Zeroconf::disable_interface", False)):
         f = P.one(name)
-        tr = tracer(P, f)
-        pushes = [(b, t) for b, t in f.calls() if cname(t) == "std::vec::Vec::push" and recv_mentions(P, f, b, t, "if_selections", "Zeroconf")]
-        ok = len(pushes) == 1
-        if ok:
-            e = tr.operand(pushes[0][1]["args"][1], endpos(f, pushes[0][0]))
-            aggs = [x for x in strip(e) if x[0] == "agg" and (x[2] or "").endswith("IfSelection")]
-            ok = bool(aggs) and fold(aggs[0][4][1]) == int(val)
-            ap = calls_to(f, "Zeroconf::apply_intf_selections")
-            ok = ok and len(ap) == 1 and all_paths_to_return_pass(f, 0, [ap[0][0]], include_from=True)
-        ctx.ob("C18e.selection-appended", f.name, ok, f.loc(), "%s appends IfSelection{selected: %s} and re-applies all selections" % (f.short, str(val).lower()))
-    # no other writer of if_selections (order = call order)
-    writers = sorted({f.name for f in P.lib_fns() for b, t in f.calls() if cname(t).startswith("std::vec::Vec::") and method(cname(t)) in ("push", "insert", "remove", "clear", "retain", "truncate", "pop", "drain")
-                      and t["args"] and recv_mentions(P, f, b, t, "if_selections", "Zeroconf")})
-    ctx.ob("C18e.who-writes-selections", "Zeroconf.if_selections", writers == ["service_daemon::Zeroconf::disable_interface", "service_daemon::Zeroconf::enable_interface"], "",
-           "if_selections is only appended to, by %s" % writers)
+        mine = [v for (f2, v) in flags if f2.name == f.name or (f2.is_closure and (f2.parent or "").startswith(f.name))]
+        ok = bool(mine) and all(v == int(val) for v in mine)
+        ap = calls_to(f, "Zeroconf::apply_intf_selections")
+        ok = ok and len(ap) == 1 and all_paths_to_return_pass(f, 0, [ap[0][0]], include_from=True)
+        ctx.ob("C18e.selection-appended", f.name, ok, f.loc(), "%s appends IfSelection{selected: %s} (flag values reaching the push from here: %s) and re-applies all selections" % (f.short, str(val).lower(), mine))
+    # nothing edits the list in place, reorders or shortens it (order = call order)
+    MUTATORS = ("insert", "remove", "swap_remove", "clear", "retain", "retain_mut", "truncate", "pop", "drain", "sort", "sort_by", "sort_by_key", "sort_unstable",
+                "sort_unstable_by", "swap", "reverse", "dedup", "dedup_by", "dedup_by_key", "iter_mut", "index_mut", "get_mut", "last_mut", "first_mut",
+                "as_mut_slice", "deref_mut", "split_off", "append", "rotate_left", "rotate_right", "fill")
+    edits = []
+    for f in P.lib_fns():
+        if f.in_tests():
+            continue
+        for b, t in f.calls():
+            if t["args"] and method(cname(t)) in MUTATORS and recv_mentions(P, f, b, t, "if_selections", "Zeroconf"):
+                edits.append("%s (%s)" % (method(cname(t)), f.loc(b)))
+        for b, i, st in f.assigns():
+            if place_mentions_field(st["p"], "Zeroconf", "if_selections") and f.short not in ("new",):
+                edits.append("assignment (%s)" % f.loc(b, i))
+    ctx.ob("C18e.who-writes-selections", "Zeroconf.if_selections", not edits, "",
+           "if_selections is only appended to (%d push site(s))" % len(pushes) if not edits else
+           "if_selections is edited in place / reordered / shortened: %s — the order of the list is the order of the calls, and the last matching entry wins" % edits[:4])
     c = P.one("Zeroconf::check_ip_changes")
     ctr = tracer(P, c)
     ap = calls_to(c, "Zeroconf::apply_intf_selections")
